@@ -909,6 +909,61 @@ fn odd_preimage_case(rep: &mut Report, world: &World, rng: &mut Rng, i: u64) {
         None => "psbt-odd-preimage: probe failed",
     });
     rep.nontrivial(&format!("psbt-odd|{}|{}", ds, len));
+    // the same spend handed to the interpreter: the odd-length value sits where the preimage
+    // belongs, and its hash is the one the script commits to
+    let sig: Vec<u8> = if wrap == 3 {
+        p0.inputs[0].tap_script_sigs.values().next().map(|s| s.to_vec()).unwrap_or_default()
+    } else {
+        p0.inputs[0].partial_sigs.values().next().map(|s| s.to_vec()).unwrap_or_default()
+    };
+    let stack: Vec<Vec<u8>> = if ms.starts_with("and_v") {
+        vec![v.clone(), sig]
+    } else if ms.starts_with("or_d") {
+        vec![v.clone(), vec![]]
+    } else {
+        vec![sig, v.clone()]
+    };
+    let inner_script: Vec<u8> = match &desc {
+        Descriptor::Tr(t) => t.leaves().next().map(|l| l.compute_script().to_bytes()).unwrap_or_default(),
+        d => d.explicit_script().map(|s| s.to_bytes()).unwrap_or_default(),
+    };
+    let mut wit = stack.clone();
+    let mut ss: Vec<u8> = vec![];
+    match wrap {
+        0 => wit.push(inner_script.clone()),
+        1 => {
+            wit.push(inner_script.clone());
+            let prog = [vec![0x00, 0x20], sha256::Hash::hash(&inner_script).to_byte_array().to_vec()].concat();
+            crate::refvm::script::push_minimal(&mut ss, &prog);
+        }
+        2 => {
+            wit.clear();
+            for e in &stack {
+                crate::refvm::script::push_minimal(&mut ss, e);
+            }
+            crate::refvm::script::push_minimal(&mut ss, &inner_script);
+        }
+        _ => {
+            wit.push(inner_script.clone());
+            if let Some(cb) = p0.inputs[0].tap_scripts.keys().next() {
+                wit.push(cb.serialize());
+            }
+        }
+    }
+    let spk_s = desc.script_pubkey();
+    let input2 = format!("preimage of {} bytes for {}: scriptSig={} witness=[{}]", len, ds, hex(&ss), wit.iter().map(|w| hex(w)).collect::<Vec<_>>().join(","));
+    let mut m2 = Mon::begin(rep, i, "interpreter", input2, bytes.len());
+    let ss_s = ScriptBuf::from_bytes(ss);
+    let w = Witness::from_slice(&wit);
+    let utxos = [TxOut { value: bitcoin::Amount::from_sat(70_000), script_pubkey: spk_s.clone() }];
+    let r2 = m2.probe("Interpreter::from_txdata+iter", &|| {
+        let interp = Interpreter::from_txdata(&spk_s, &ss_s, &w, bitcoin::Sequence(0xffff_fffd), bitcoin::absolute::LockTime::ZERO).ok()?;
+        let prevouts = bitcoin::sighash::Prevouts::All(&utxos);
+        let n_ok = interp.iter(&world.secp, &p0.unsigned_tx, 0, &prevouts).take_while(|x| x.is_ok()).count();
+        let n_assume = interp.iter_assume_sigs().take_while(|x| x.is_ok()).count();
+        Some((n_ok, n_assume))
+    });
+    rep.count(if matches!(r2, Some(Some(_))) { "interpreter-odd-preimage: parsed by from_txdata" } else { "interpreter-odd-preimage: refused by from_txdata" });
 }
 
 fn psbt_case(cfg: &RunCfg, rep: &mut Report, world: &World, i: u64) {
